@@ -238,6 +238,14 @@ def run(ctx):
     ctors = {"DailyModel()": lambda s: DailyModel(settings=s), "DailyModel(legacy)": lambda s: DailyModel(model="legacy", settings=s),
              "BillingModel()": lambda s: BillingModel(settings=s)}
     approved_by_fam = {fam: {k: v for k, v in rows} for fam, rows in approved.items()}
+    # the profile a constructor uses is the class of the settings it builds without arguments (BillingModel builds the legacy
+    # daily profile; the weighted billing model builds BillingSettings)
+    for cname, ctor in ctors.items():
+        try:
+            cls0 = type(ctor({}).settings)
+            fam_of[cname] = next((f for f, c in fams.items() if c is cls0), fam_of[cname])
+        except Exception:  # noqa
+            pass
     for cname, ctor in ctors.items():
         for sname, scls in fams.items():
             for extra in ({}, {"uncertainty_alpha": 0.25}):
@@ -260,6 +268,48 @@ def run(ctx):
                 diff = {k: (want[k], got_flat.get(k)) for k in want if k not in ("uncertainty_alpha",) and got_flat.get(k) != want[k]}
                 if diff:
                     res["oracle_failures"].append(dict(clause="lock", api=f"{cname} given a {scls.__name__} object {extra}", verdict="accept",
+                                                       developer_mode=False, constants_differing_from_approved=dict(list(diff.items())[:6])))
+
+    # ---- NESTED settings objects: every settings-valued field of every profile given an OBJECT of each nested settings class found
+    # in any profile (default-constructed), without developer mode: refuse, or carry the approved constants of the model's own profile
+    import pydantic as _pyd
+    nested_classes = {}
+    for sname, scls in fams.items():
+        for k, f in scls.model_fields.items():
+            try:
+                v = getattr(scls(), k)
+            except Exception:  # noqa
+                continue
+            if isinstance(v, _pyd.BaseModel):
+                nested_classes[type(v).__name__] = type(v)
+                for sub in type(v).__mro__:
+                    if isinstance(sub, type) and issubclass(sub, _pyd.BaseModel) and sub.__module__ == type(v).__module__ and sub is not _pyd.BaseModel:
+                        nested_classes.setdefault(sub.__name__, sub)
+    for cname, ctor in ctors.items():
+        own_cls = fams.get(fam_of[cname]) or list(fams.values())[0]
+        for k, f in own_cls.model_fields.items():
+            try:
+                if not isinstance(getattr(own_cls(), k), _pyd.BaseModel):
+                    continue
+            except Exception:  # noqa
+                continue
+            for nname, ncls in nested_classes.items():
+                res["evaluations"] += 1
+                try:
+                    nobj = ncls()
+                    m = ctor({k: nobj})
+                except Exception:  # noqa
+                    sigs.add(("nested_object", cname, k, nname, "refused"))
+                    continue
+                dump = m.settings.model_dump()
+                sigs.add(("nested_object", cname, k, nname, "accepted"))
+                if dump.get("developer_mode"):
+                    continue
+                want = approved_by_fam.get(fam_of[cname], {})
+                got_flat = {kk: v for kk, v in flat_of(dump)}
+                diff = {kk: (want[kk], got_flat.get(kk)) for kk in want if got_flat.get(kk) != want[kk]}
+                if diff:
+                    res["oracle_failures"].append(dict(clause="lock", api=f"{cname} given settings={{'{k}': {nname}()}} (a nested settings OBJECT)", verdict="accept",
                                                        developer_mode=False, constants_differing_from_approved=dict(list(diff.items())[:6])))
 
     if ctx.get("model_ok", True):
